@@ -25,6 +25,17 @@ CHECKS = {
         note="Bounded: histories <=4 calls, 9-rank value grid per parameter placed around that parameter's class defaults; TLC, the value reader and the replay driver are trusted.",
         technique="TLA+ spec (ElementParams.tla) + TLC exhaustive BFS per limit shape; spec->code replay of every history on every registered class with per-step comparison",
     ),
+    "C15": dict(
+        text="The registry (specs/Registry.tla: register_element with valid/duplicate/invalid symbols, consistent/inconsistent "
+             "classes and the private flag, remove_elements, reset, Class.set_default_values, reset_default_parameter_values) is "
+             "model-checked for built-ins preserved, no shadowing, inconsistent classes refused, private flags only on registered "
+             "symbols; every history is replayed with freshly created Element subclasses and the four get_elements views, parse_cdc "
+             "on every probe symbol and all class defaults are compared with the model after every call, and reset() must give "
+             "back the freshly imported views.",
+        design_ref="§4 C15",
+        note="Bounded: histories <=4 calls (model invariants to depth 7); built-ins abstracted to L, La, Ls, R, K; TLC and the replay driver are trusted.",
+        technique="TLA+ spec (Registry.tla) + TLC exhaustive BFS; spec->code replay of every history with per-step comparison of all registry observations",
+    ),
 }
 
 NOT_APPLICABLE = {
